@@ -3,6 +3,7 @@ C16 — round numbers and times convert consistently and never wrap.
 Property theorems only (helper lemmas are private, above the theorem they serve).
 -/
 import Drand.Time
+import DrandProofs.C16Float
 import Mathlib.Tactic.IntervalCases
 import Mathlib.Tactic.Linarith
 import Mathlib.Tactic.NormNum
